@@ -117,10 +117,17 @@ func genCall(r *lib.Rng, p *c10Pool, cat int) c10Call {
 		i = r.Intn(2)
 		j = 1 - i
 	}
+	pencil := strings.HasPrefix(p.Class, "pencil")
+	if pencil && cat == 0 && i == 1 && j == 1 { // (one segment, the same segment): no pencil in it
+		j = 0
+	}
+	if pencil && cat == 1 && len(p.Rep) > 0 { // UnaryUnion needs the repeated segment inside its one operand
+		i = p.Rep[r.Intn(len(p.Rep))]
+	}
 	switch cat {
 	case 0:
 		op := binaryOverlay[r.Intn(len(binaryOverlay))]
-		if r.Chance(1, 2) { // the four set operations and Relate are the order-sensitive core
+		if r.Chance(1, 2) || (pencil && r.Chance(1, 2)) { // the four set operations and Relate are the order-sensitive core
 			op = binaryOverlay[r.Intn(5)]
 		}
 		return c10Call{fmt.Sprintf("%s:%d:%d", op, i, j), true, func(p *c10Pool) (string, string) { return runBinary(op, p.G[i], p.G[j]) }}
